@@ -6,6 +6,7 @@ import SonicModel.Lemmas.SkipMain
 import SonicModel.Lemmas.EntryIff
 import SonicModel.Impl.Entry
 import SonicModel.Lemmas.StrictLazy
+import SonicModel.Lemmas.DomParseProof
 namespace Sonic.Thm.C02
 open Sonic Gen
 
@@ -78,6 +79,13 @@ theorem decoding_accept_implies_skipping_accept (buf : Buf) (s e : Nat) (h : Spe
     exact h
   | err => simp [hv] at h
   | fuel => simp [hv] at h
+
+/-- **decoding path, completeness**: every text of the fully-decoding grammar is accepted by the model of the DOM parser
+    (`parse_value` / `parse_array` / `parse_object` with the digit machine and the string decoder) -/
+theorem decoding_parser_accepts_wellformed (buf : Buf) (s e : Nat) (h : Spec.document true buf = some (s, e)) :
+    (DomP.document buf).isSome := by
+  obtain ⟨t, _, ht⟩ := DomP.document_of_strict buf s e h
+  rw [ht]; rfl
 
 /-! non-vacuity: concrete inputs on which the hypotheses hold and both sides are non-trivial
     (byte arrays written out because string literals do not reduce in the kernel) -/
